@@ -1,0 +1,114 @@
+//go:build verif
+
+// Contracts for the contract-based deductive verification in /verif (govc).
+// Comment-only: nothing in this file is compiled into the package.
+package combination
+
+// CalculatePower and GetAllPossibleCombinations are NOT verified by contract (maps, sort.Slice with closures,
+// math.Pow on floats, bit tricks): their statements are covered by the exhaustive / bounded stand-ins of C03 and
+// C10. The engine-side proofs only assume the shape of their results.
+
+//@ func CalculatePower(pr, cardSymbols) (ps)
+//@   trusted
+//@   modifies nothing
+//@   allocs PowerState, Card, Element, elems(*Card), elems(*Element)
+//@   ensures ps != nil && fresh(ps)
+//@   ensures forall k :: 0 <= k && k < len(ps.Cards) ==> ps.Cards[k] != nil
+
+//@ func GetAllPossibleCombinations(boardCards, holeCards, holeCardsCount) (res)
+//@   trusted
+//@   modifies nothing
+//@   allocs elems([]string), elems(string)
+//@   ensures len(res) >= 1
+
+// ---------------------------------------------------------------------------
+// hand evaluation helpers under contract (C03). The detectors and the category offsets are verified; the
+// remaining pipeline (card parsing, grouping by rank with a map, sort.Slice with closures, the base-13 score
+// with math.Pow on floats) is covered by the exhaustive stand-in over all five-card hands.
+// ---------------------------------------------------------------------------
+
+//@ pred CARDSOK(cards) = forall k :: 0 <= k && k < len(cards) ==> cards[k] != nil
+//@ pred ELEMSOK(es) = forall k :: 0 <= k && k < len(es) ==> es[k] != nil
+
+//@ func isFlush(cards) (res)
+//@   props C03
+//@   requires CARDSOK(cards)
+//@   modifies nothing
+//@   ensures [C03] res <==> (len(cards) > 0 && (forall k :: 0 <= k && k < len(cards) ==> cards[k].Suit == cards[0].Suit))
+//@   loop 1 invariant forall k :: 0 <= k && k <= rangeindex ==> cards[k].Suit == cards[0].Suit
+
+//@ func isStraight(cards) (res)
+//@   props C03
+//@   requires CARDSOK(cards)
+//@   modifies nothing
+//@   allocs elems(*Card)
+//@   -- five cards given in descending rank order form a straight: consecutive ranks, or the wheel A-5-4-3-2
+//@   ensures [C03] res <==> (len(cards) == 5 && cards[0].Rank >= 5
+//@             && ((cards[0].Rank == 14 && cards[1].Rank == 5 && (forall k :: 1 <= k && k < 5 ==> cards[k].Rank == 6 - k))
+//@                 || (!(cards[0].Rank == 14 && cards[1].Rank == 5) && (forall k :: 0 <= k && k < 5 ==> cards[k].Rank == cards[0].Rank - k))))
+//@   loop 1 invariant cur == restOfCards[0].Rank - (rangeindex + 1)
+//@   loop 1 invariant forall k :: 0 <= k && k <= rangeindex ==> restOfCards[k].Rank == restOfCards[0].Rank - k
+
+//@ func isFourOfAKind(elements) (res)
+//@   props C03
+//@   requires ELEMSOK(elements)
+//@   modifies nothing
+//@   ensures [C03] res <==> (exists k :: 0 <= k && k < len(elements) && elements[k].Count == 4)
+//@   loop 1 invariant forall k :: 0 <= k && k <= rangeindex ==> elements[k].Count != 4
+
+//@ func isThreeOfAKind(elements) (res)
+//@   props C03
+//@   requires ELEMSOK(elements)
+//@   modifies nothing
+//@   ensures [C03] res <==> (exists k :: 0 <= k && k < len(elements) && elements[k].Count == 3)
+//@   loop 1 invariant forall k :: 0 <= k && k <= rangeindex ==> elements[k].Count != 3
+
+//@ func isFullHouse(elements) (res)
+//@   props C03
+//@   requires ELEMSOK(elements)
+//@   modifies nothing
+//@   ensures [C03] res <==> ((exists k :: 0 <= k && k < len(elements) && elements[k].Count == 3) && (exists k :: 0 <= k && k < len(elements) && elements[k].Count == 2))
+//@   loop 1 invariant hasThree <==> (exists k :: 0 <= k && k <= rangeindex && elements[k].Count == 3)
+//@   loop 1 invariant hasTwo <==> (exists k :: 0 <= k && k <= rangeindex && elements[k].Count == 2)
+
+// number of pairs among the first k rank groups
+//@ fun NPAIRS(es []*Element, k int) int = ite(k <= 0, 0, NPAIRS(es, k - 1) + ite(es[k - 1].Count == 2, 1, 0))
+
+//@ func isTwoPair(elements) (res)
+//@   props C03
+//@   requires ELEMSOK(elements)
+//@   modifies nothing
+//@   ensures [C03] res <==> NPAIRS(elements, len(elements)) == 2
+//@   loop 1 invariant pairCount == NPAIRS(elements, rangeindex + 1)
+
+//@ func isPair(elements) (res)
+//@   props C03
+//@   requires ELEMSOK(elements)
+//@   modifies nothing
+//@   ensures [C03] res <==> NPAIRS(elements, len(elements)) == 1
+//@   loop 1 invariant pairCount == NPAIRS(elements, rangeindex + 1)
+
+// the score offset of a category: the sum of the level sizes of all categories ranked below it in the table
+//@ fun OFFSET(pr []Combination, k int) int = ite(k <= 0, 0, OFFSET(pr, k - 1) + CombinationLevel[pr[k - 1]])
+
+//@ func CalculatePowerLevels(pr, ps) (res)
+//@   props C03
+//@   requires ps != nil
+//@   modifies nothing
+//@   ensures [C03] forall i :: 0 <= i && i < len(pr) && pr[i] == ps.Combination && (forall j :: 0 <= j && j < i ==> pr[j] != ps.Combination) ==> res == OFFSET(pr, i)
+//@   ensures (forall j :: 0 <= j && j < len(pr) ==> pr[j] != ps.Combination) ==> res == 0
+//@   loop 1 invariant powerLevel == OFFSET(pr, rangeindex + 1) && (forall j :: 0 <= j && j <= rangeindex ==> pr[j] != ps.Combination)
+
+// the level sizes leave room for every raw score of their category (base-13 positional value of the rank
+// groups: 5 groups for high card / flush, 4 for a pair, 3 for two pair / trips, 2 for full house / quads;
+// straights score at most 9), so categories never overlap — read from the source on every run
+//@ lemma LEVELSIZES() props C03 : CombinationLevel[CombinationHighCard] >= 13 * 13 * 13 * 13 * 13 && CombinationLevel[CombinationFlush] >= 13 * 13 * 13 * 13 * 13
+//@    && CombinationLevel[CombinationPair] >= 13 * 13 * 13 * 13
+//@    && CombinationLevel[CombinationTwoPair] >= 13 * 13 * 13 && CombinationLevel[CombinationThreeOfAKind] >= 13 * 13 * 13
+//@    && CombinationLevel[CombinationFullHouse] >= 13 * 13 && CombinationLevel[CombinationFourOfAKind] >= 13 * 13
+//@    && CombinationLevel[CombinationStraight] >= 10 && CombinationLevel[CombinationStraightFlush] >= 10
+// both shipped tables list every category exactly once, in the order of the variant
+//@ lemma TABLES() props C03 : len(CombinationPowerStandard) == 9 && len(CombinationPowerShortDeck) == 9
+//@    && CombinationPowerStandard[5] == CombinationFlush && CombinationPowerStandard[6] == CombinationFullHouse
+//@    && CombinationPowerShortDeck[5] == CombinationFullHouse && CombinationPowerShortDeck[6] == CombinationFlush
+//@    && (forall i :: 0 <= i && i < 9 && i != 5 && i != 6 ==> CombinationPowerStandard[i] == i && CombinationPowerShortDeck[i] == i)
